@@ -19,16 +19,26 @@ REPO = unit.REPO
 BUILD = os.path.join(ROOT, 'build')
 
 
-def sh(cmd, timeout=None, cwd=None, env=None):
+ORACLE_MEM_LIMIT = 6 << 30      # address-space limit of an oracle process (a runaway loop in mutated code must not take the sandbox down)
+
+
+def _limit_mem():
+    import resource
+    resource.setrlimit(resource.RLIMIT_AS, (ORACLE_MEM_LIMIT, ORACLE_MEM_LIMIT))
+
+
+def sh(cmd, timeout=None, cwd=None, env=None, limit_mem=False):
     e = dict(os.environ)
     e.update({'CARGO_NET_OFFLINE': 'true'})
     if env:
         e.update(env)
     try:
-        p = subprocess.run(cmd, shell=isinstance(cmd, str), capture_output=True, text=True, timeout=timeout, cwd=cwd, env=e)
+        p = subprocess.run(cmd, shell=isinstance(cmd, str), capture_output=True, text=True, timeout=timeout, cwd=cwd, env=e,
+                           preexec_fn=_limit_mem if limit_mem else None)
         return p.returncode, p.stdout, p.stderr
     except subprocess.TimeoutExpired as ex:
-        return 124, (ex.stdout or b'').decode() if isinstance(ex.stdout, bytes) else (ex.stdout or ''), 'timeout'
+        dec = lambda b: b.decode(errors='replace') if isinstance(b, bytes) else (b or '')
+        return 124, dec(ex.stdout), dec(ex.stderr) + '\ntimeout'
 
 
 # ---------------------------------------------------------------- replay crate
@@ -62,7 +72,7 @@ def replay_search(prop, seed, budget_ms, thorough=False):
     if not binp:
         return {'status': 'unavailable', 'why': 'replay crate does not build against the current tree: ' + err}
     cmd = [binp, oracle, 'search', str(seed), str(budget_ms)] + (['thorough'] if thorough else [])
-    rc, out, err = sh(cmd, timeout=budget_ms / 1000 + 120)
+    rc, out, err = sh(cmd, timeout=budget_ms / 1000 + 120, limit_mem=True)
     for ln in out.split('\n'):
         if ln.startswith('FOUND '):
             body = ln[len('FOUND '):]
@@ -74,6 +84,17 @@ def replay_search(prop, seed, budget_ms, thorough=False):
             return {'status': 'found', 'input': inp, 'what': what, 'tried': tried, 'cmd': ' '.join(cmd)}
         if ln.startswith('NONE'):
             return {'status': 'none', 'tried': int(ln.split('=')[1]) if '=' in ln else 0, 'cmd': ' '.join(cmd)}
+    # the oracle process died (memory limit, abort) or ran into the time limit: the last announced input is the suspect;
+    # it counts as a failing input only if it reproduces on its own in a fresh, equally limited process
+    cur = [ln[4:] for ln in (err or '').split('\n') if ln.startswith('CUR ')]
+    if cur:
+        rc2, out2, err2 = sh([binp, oracle, 'run'] + cur[-1].split(' '), timeout=60, limit_mem=True)
+        if rc2 not in (0, 1):
+            what = 'the process %s on this input (memory limit %d GiB, time limit 60 s): non-termination or unbounded allocation' % (
+                'hit the time limit' if rc2 == 124 else 'was killed/aborted (rc=%s)' % rc2, ORACLE_MEM_LIMIT >> 30)
+            return {'status': 'found', 'input': cur[-1], 'what': what, 'tried': len(cur), 'cmd': ' '.join(cmd)}
+        if rc2 == 1:
+            return {'status': 'found', 'input': cur[-1], 'what': out2.strip()[5:] if out2.startswith('FAIL ') else out2.strip(), 'tried': len(cur), 'cmd': ' '.join(cmd)}
     return {'status': 'unavailable', 'why': 'oracle crashed: rc=%s %s' % (rc, (out + err)[-400:])}
 
 
@@ -81,7 +102,9 @@ def replay_run(prop, inp):
     binp, err = replay_bin()
     if not binp:
         return None, 'replay crate does not build: ' + err
-    rc, out, err = sh([binp, PROPS[prop]['oracle'], 'run'] + inp.split(' '), timeout=300)
+    rc, out, err = sh([binp, PROPS[prop]['oracle'], 'run'] + inp.split(' '), timeout=300, limit_mem=True)
+    if rc not in (0, 1):
+        return False, 'process killed/aborted or timed out (rc=%s) under the %d GiB memory limit' % (rc, ORACLE_MEM_LIMIT >> 30)
     return rc == 0, out.strip()
 
 
